@@ -1013,6 +1013,9 @@ func (c *Ctx) SuccessNeedsEverything(prop string) {
 							// e.g. results[i] = checkRes: must be below [checkRes != Succeeded]
 							v := st.Val
 							target := ssa.Instruction(st)
+							if vals, ok := c.tableFieldConsts(v); ok && !vals[succ] {
+								continue // read from an init-only table of constants none of which is SUCCEEDED
+							}
 							if x, path := an.Cut(an.CutQuery{From: an.Entry(f), Target: func(i ssa.Instruction) bool { return i == target },
 								AcceptEdge: func(b *ssa.BasicBlock, i int, a *an.Atom) bool {
 									return a != nil && a.Op == "!=" && ((a.LV == v && an.IsConstInt(a.RV, succ)) || (a.RV == v && an.IsConstInt(a.LV, succ)))
